@@ -68,7 +68,7 @@ def gen_constants(ctx):
     # quick: a seed-chosen subset of -4..20 that always has 0, a bound below 4, one around a byte boundary and one beyond every pool binary's unit count
     rng = ctx.rng
     pos = {0, rng.choice([1, 2, 3]), rng.choice([7, 8, 9]), rng.choice([15, 16, 17]), rng.choice([18, 19, 20])}
-    while len(pos) < 7:
+    while len(pos) < 6:
         pos.add(rng.randrange(1, 21))
     neg = set(rng.sample(ALL_NEG, 2))
     return sorted(pos), sorted(neg)
